@@ -1,13 +1,14 @@
 (* C11 -- whatever the parsers accept can be re-serialised to an equivalent message.
-   PARTIAL in two respects, stated in the theorems: requests whose method contains bytes
-   outside the graphic ASCII range are not covered; for a chunked response the parsed value is
-   shown to be [dechunk_headers ...] (C12 describes it) and the round trip is proved under the
-   premise that this rewritten value is well-formed (checked on every case by the
-   correspondence run: parse -> generate -> parse on implementation and model).
-   Relative to the per-target premise [uri_ok] about rhymuri (known findings K2, K3). *)
+   Responses: proved for every accepted response, all three framings
+   (C11_every_accepted_response_reserialises; for a chunked response the regenerated message is
+   the Content-Length-framed equivalent carrying the de-chunked body).
+   Requests: proved for accepted requests whose method is graphic ASCII (methods with other
+   bytes are exercised by the correspondence run only), relative to the per-target premise
+   [uri_ok] about rhymuri (known findings K2, K3) and to the re-serialised lines fitting the
+   limits (the property's own quantifier). *)
 From Coq Require Import String.
 From Http Require Import Model.Bytes Model.Num Model.Headers Model.Request Model.Response
-     Spec.HeaderGrammar Spec.RequestGrammar Spec.ResponseGrammar Proofs.RoundTrip Proofs.Reserialise.
+     Spec.HeaderGrammar Spec.RequestGrammar Spec.ResponseGrammar Proofs.RoundTrip Proofs.Reserialise Proofs.DechunkWf.
 
 Theorem C11_request_reserialise :
   forall (uri : Type) (uri_parse : bytes -> option uri) (uri_show : uri -> bytes)
@@ -51,6 +52,35 @@ Theorem C11_response_reserialise :
       resp_value_of st2 = resp_value_of st.
 Proof. exact response_reserialise. Qed.
 Print Assumptions C11_response_reserialise.
+
+(* every accepted response -- Content-Length, chunked or body-less -- is a well-formed value
+   (legal names; printable, trimmed values; a single Content-Length equal to the body length
+   when there is a body) and therefore re-serialises to a message that parses to the same value,
+   the whole output consumed.  The size premise only excludes bodies longer than usize::MAX. *)
+Theorem C11_accepted_response_wellformed :
+  forall x st c,
+    resp_parse resp_init x = (st, Complete c) ->
+    (N.of_nat (length (s_body st)) <= USIZE_MAX)%N ->
+    WfResponse (resp_value_of st).
+Proof. exact accepted_response_value_wf. Qed.
+Print Assumptions C11_accepted_response_wellformed.
+
+Theorem C11_every_accepted_response_reserialises :
+  forall x st c,
+    resp_parse resp_init x = (st, Complete c) ->
+    (N.of_nat (length (s_body st)) <= USIZE_MAX)%N ->
+    exists st2,
+      resp_parse resp_init (generate_response (resp_value_of st)) =
+        (st2, Complete (length (generate_response (resp_value_of st)))) /\
+      resp_value_of st2 = resp_value_of st.
+Proof. exact every_accepted_response_reserialises. Qed.
+Print Assumptions C11_every_accepted_response_reserialises.
+
+(* the rewritten header list of a chunked response keeps well-formedness *)
+Theorem C11_dechunked_headers_wellformed :
+  forall hs tr body, Forall hdr_wf0 hs -> Forall hdr_wf0 tr -> Forall hdr_wf0 (dechunk_headers hs tr body).
+Proof. exact dechunk_headers_wf. Qed.
+Print Assumptions C11_dechunked_headers_wellformed.
 
 (* non-vacuity: a chunked response re-serialises to the Content-Length-framed equivalent *)
 Example C11_chunked_example :
